@@ -18,7 +18,14 @@ func Gosched() {
 	rt.Gosched()
 }
 
-func GOMAXPROCS(n int) int { return rt.GOMAXPROCS(n) }
+// GOMAXPROCS: under the deterministic scheduler the number of Ps is an input chosen by
+// the harness (sched.S.Procs); a query returns it, an attempt to change it is ignored.
+func GOMAXPROCS(n int) int {
+	if p := sched.Procs(); p > 0 {
+		return p
+	}
+	return rt.GOMAXPROCS(n)
+}
 func NumCPU() int          { return rt.NumCPU() }
 func NumGoroutine() int    { return rt.NumGoroutine() }
 func KeepAlive(x any)      { rt.KeepAlive(x) }
